@@ -269,14 +269,42 @@ fn report_violation(o: &Opts, r: &Replay) -> ! {
 	std::process::exit(1)
 }
 
+/// Re-executes a bufsim run that hung, publishing the trace before every step, and returns
+/// what had been published when the watchdog bound expires again: the history up to and
+/// including the step that never returns.
+fn recover_hung_trace(property: &str, seed: u64, tier: &str, run: u64) -> Option<Trace> {
+	let prop = match property {
+		"C04" => Prop::C04,
+		"C10" => Prop::C10,
+		"C11" => Prop::C11,
+		_ => return None,
+	};
+	let slot: Arc<Mutex<Option<Trace>>> = Arc::new(Mutex::new(None));
+	let s2 = slot.clone();
+	let thorough = tier == "thorough";
+	let (tx, rx) = std::sync::mpsc::channel::<()>();
+	std::thread::spawn(move || {
+		let mut st = bufsim::Stats::default();
+		let _ = bufsim::run_one_observed(prop, rng::mix(seed, prop.engine_id(), run), thorough, &mut st, &mut |t| {
+			*s2.lock().unwrap() = Some(t.clone());
+		});
+		let _ = tx.send(());
+	});
+	match rx.recv_timeout(std::time::Duration::from_secs(HANG_SECS)) {
+		Ok(()) => None, // it completed this time: leave the seed-only replay
+		Err(_) => slot.lock().unwrap().clone(),
+	}
+}
+
 fn hang_report(o_verif: &Path, engine: &str, property: &str, seed: u64, tier: &str, run: u64) {
+	let trace = if engine == "bufsim" { recover_hung_trace(property, seed, tier, run) } else { None };
 	let r = Replay {
 		engine: engine.into(),
 		property: property.into(),
 		seed,
 		run,
 		profile: format!("hang,tier={}", tier),
-		trace: None,
+		trace,
 		iter: None,
 		alloc: None,
 		violation: Violation {
@@ -285,7 +313,7 @@ fn hang_report(o_verif: &Path, engine: &str, property: &str, seed: u64, tier: &s
 			step: 0,
 			op_index: None,
 			op: "unknown".into(),
-			message: format!("run {} did not finish within {} s of wall clock (replay re-executes the run from its seed)", run, HANG_SECS),
+			message: format!("run {} did not finish within {} s of wall clock; when a trace is recorded its last step is the one that never returned (not minimised), otherwise replay re-executes the run from its seed", run, HANG_SECS),
 			pre: None,
 			expected: None,
 			observed: None,
@@ -925,14 +953,16 @@ fn cmd_replay(o: &Opts) {
 	let f = o.file.clone().unwrap_or_else(|| die("replay needs a file"));
 	let s = std::fs::read_to_string(&f).unwrap_or_else(|e| die(&format!("{}: {}", f, e)));
 	let r: Replay = serde_json::from_str(&s).unwrap_or_else(|e| die(&format!("{}: {}", f, e)));
-	if o.deny {
-		allocsim::set_deny(true);
-	}
-	// a hang replay is itself run under the watchdog
-	if r.trace.is_none() && r.engine == "bufsim" {
+	// every replay runs under the watchdog
+	{
 		let (tx, rx) = std::sync::mpsc::channel();
 		let r2 = r.clone();
+		let deny = o.deny;
 		std::thread::spawn(move || {
+			if deny {
+				// the window flag and the deny flag are per thread
+				allocsim::set_deny(true);
+			}
 			let _ = tx.send(exec_replay(&r2));
 		});
 		match rx.recv_timeout(std::time::Duration::from_secs(HANG_SECS)) {
@@ -952,18 +982,6 @@ fn cmd_replay(o: &Opts) {
 				std::process::exit(1);
 			}
 		}
-	}
-	match exec_replay(&r) {
-		Ok(None) => {
-			println!("replay {}: no violation", f);
-			std::process::exit(0);
-		}
-		Ok(Some(v)) => {
-			println!("{}", serde_json::to_string_pretty(&v).unwrap());
-			println!("VIOLATION property={} replay={}", r.property, f);
-			std::process::exit(1);
-		}
-		Err(e) => die(&e),
 	}
 }
 
